@@ -17,7 +17,7 @@ def sector(lba, x):
 
 class SatTarget(object):
     """translation layer (SAT-3 12.2: ATA PASS-THROUGH (12) A1h, (16) 85h) + ATA disk (ACS-3 command set)"""
-    PROTO = {0x20: 4, 0x24: 4, 0xEC: 4, 0x30: 5, 0x34: 5, 0xE7: 3, 0xEA: 3, 0xEF: 3, 0xE0: 3, 0xE1: 3, 0xE5: 3}
+    PROTO = {0x20: 4, 0x24: 4, 0xEC: 4, 0x30: 5, 0x34: 5, 0xE7: 3, 0xEA: 3, 0xEF: 3, 0xE0: 3, 0xE1: 3, 0xE5: 3, 0xA1: 3}
 
     def __init__(self):
         self.sect = {}
@@ -140,6 +140,12 @@ class SatTarget(object):
                 # byte 2 EXTEND, 3 ERROR, 4-5 COUNT (15:8, 7:0), 6-11 LBA, 12 DEVICE, 13 STATUS
                 desc = bytes([0x09, 0x0C, 0, 0, 0, 0x00 if self.standby else 0xFF, 0, 0, 0, 0, 0, 0, 0x40, 0x50])
                 return 2, bytes([0x72, 0x01, 0x00, 0x1D, 0, 0, 0, len(desc)]) + desc
+        elif cmd == 0xA1:
+            # IDENTIFY PACKET DEVICE on an ATA (non-packet) disk: aborted.  CHECK CONDITION, ABORTED COMMAND, with the
+            # ATA Status Return descriptor: ERROR = 04h (ABRT), STATUS = 51h (DRDY | ERR)
+            self.last = ("aborted", v, ck_cond)
+            desc = bytes([0x09, 0x0C, 0, 0x04, 0, 0, 0, 0, 0, 0, 0, 0, 0x40, 0x51])
+            return 2, bytes([0x72, 0x0B, 0x00, 0x00, 0, 0, 0, len(desc)]) + desc
         else:
             self.odd.append("ATA command %02Xh" % cmd)
         return 0, None
@@ -158,7 +164,7 @@ def satdisk(chk, mini=False):
         if not r.ok:
             raise tlc.TLCFailure("SatDisk.tla violated %s\n%s" % (r.violated, r.counterexample[:1500]))
         if cfg.startswith("MC_SatDisk_"):
-            for a in ("Write", "Read", "Identify", "SetCache", "Flush", "Power", "CheckPower"):
+            for a in ("Write", "Read", "Identify", "SetCache", "Flush", "Power", "CheckPower", "Aborted"):
                 if r.coverage.get(a, (0, 0))[0] == 0:
                     raise tlc.TLCFailure("SatDisk.tla vacuous: %s never taken" % a)
         ev.tlc("SatDisk/" + cfg + " (exhaustive)", r)
@@ -256,6 +262,15 @@ def satdisk(chk, mini=False):
                         want_last = (a, v)
                         kw = {"extend": 0} if v == 16 else {}
                         ata(3, 0, 0, 0, 0, 0, 0, 0xE0 if a == "standby" else 0xE1, **kw)
+                    elif a == "aborted":
+                        want_last = ("aborted", v, 0)
+                        kw = {"extend": 0} if v == 16 else {}
+                        c = ata(3, 0, 0, 0, 0, 0, 0, 0xA1, **kw)          # CK_COND left at its default
+                        raw = c.raw_sense_data
+                        if raw is None or len(raw) < 22 or raw[0] != 0x72 or raw[8] != 0x09:
+                            d1 = 99
+                        else:
+                            d1 = raw[8 + 3]
                     elif a == "checkpower":
                         want_last = ("checkpower", v, 1)
                         kw = {"extend": 0} if v == 16 else {}
